@@ -43,7 +43,7 @@ PROPS = {
         'units': [('contracts/M_model.vc', None, 'M_model')],
         'functions': ['read_slice', 'read', 'write', 'to_vec', 'model_magic', 'MODEL_MAGIC'],
         'replay': 'c07',
-        'replay_scope': 'resources/model.bin: every truncation point through read_slice; 25 header corruptions; 4 trailing-byte lengths incl. re-serialisation equality; Model::read through readers returning at most k bytes per call (9 values of k), failing after k bytes and ending after k bytes (every k); Model::write into a writer failing after k bytes (every k)',
+        'replay_scope': 'resources/model.bin: every truncation point through read_slice; 25 header corruptions; 4 trailing-byte lengths incl. re-serialisation equality; Model::read through readers returning at most k bytes per call (9 values of k), failing after k bytes and ending after k bytes (every k); Model::write into a writer failing after k bytes (every k); since round 12 a model of 2,000 and of 300,000 (thorough: 1,500,000) dictionary records and n-grams read back from a slice and from a reader',
         'not_covered': [
             'symmetry of the derive(Encode, Decode) implementations (code generated by bincode macros in an external crate): the round-trip postcondition of read_slice and the completeness clause of read are proved UNDER the explicitly assumed codec inverse / decodable predicate',
             'std::io::Read/Write are modelled by an assumed trait contract (stream of bytes that may end or fail anywhere; read may be short, read_exact/write_all are all-or-error)',
@@ -54,7 +54,7 @@ PROPS = {
         'units': [('contracts/M_model.vc', None, 'M_model')],
         'functions': ['replace_dictionary', 'dictionary', 'tag_models', 'new', 'get_word', 'get_weights', 'get_comment', 'chars_count', 'lemma_chars_le_bytes'],
         'replay': ['c19', 'c01'],
-        'replay_scope': '10 words x 8 weight counts for the record rule; 4 replacement dictionaries on resources/model.bin with byte-for-byte restore check; score-difference clause on 150 seeded models against the brute-force linear model; the manipulate_model binary built from /repo: --dump-dict then --replace-dict with the unmodified dump on 16 dictionaries (shipped, empty, awkward words / comments with commas, quotes, leading / trailing / inner spaces, tab, newline, ZWJ emoji, a leading hash sign) reproduces the model byte for byte, and a record with a wrong weight count is rejected; tool sweep since round 11: the dump of each dictionary is also put into ANOTHER model (two-word dictionary) and must give the model holding the dumped dictionary (an empty dump empties it)',
+        'replay_scope': '10 words x 8 weight counts for the record rule; 4 replacement dictionaries on resources/model.bin with byte-for-byte restore check; score-difference clause on 150 seeded models against the brute-force linear model; the manipulate_model binary built from /repo: --dump-dict then --replace-dict with the unmodified dump on 16 dictionaries (shipped, empty, awkward words / comments with commas, quotes, leading / trailing / inner spaces, tab, newline, ZWJ emoji, a leading hash sign) reproduces the model byte for byte, and a record with a wrong weight count is rejected; tool sweep since round 11: the dump of each dictionary is also put into ANOTHER model (two-word dictionary) and must give the model holding the dumped dictionary (an empty dump empties it); since round 12 records with weights that need all 32 bits and records with only zero weights, in the tool sweep and in the replace check',
         'not_covered': [
             'the score-difference clause is the composition of this frame with the C01 chain (dictionary entries enter the score only through contrib terms); the composition itself is not a discharged obligation',
         ],
@@ -88,7 +88,7 @@ PROPS = {
     'C01': {
         'units': [('contracts/P_pred.vc', 'realpred', 'P_pred'), ('contracts/T_cache.vc', None, 'T_cache'), ('contracts/C_scorers.vc', None, 'C_scorers')],
         'replay': 'c01',
-        'replay_scope': 'seeded random well-formed models (suffix-related n-grams, words, windows 1..4, weight vectors shorter and longer than 8; every 5th seed a degenerate shape: no character n-grams, no type n-grams, no dictionary, or neither kind of n-gram; every 6th seed weights near the 16-bit limits, every 6th seed vectors longer than 8 that are zero except for their last / first entries; now and then a window of 127, 128, 200 or 255) x 6 texts of 1..12 mixed-width characters + 2 texts assembled from the model\'s own n-grams, words, tag tokens and tag n-grams; texts of even length are predicted twice in a row on the same sentence; every boundary score compared with the brute-force linear model; plain and tagging scorers; since round 10/11: entries whose weights cancel their own suffix entry, tag weight lists in any offset order, and in every fifth text one code point from the edges of the character classes',
+        'replay_scope': 'seeded random well-formed models (suffix-related n-grams, words, windows 1..4, weight vectors shorter and longer than 8; every 5th seed a degenerate shape: no character n-grams, no type n-grams, no dictionary, or neither kind of n-gram; every 6th seed weights near the 16-bit limits, every 6th seed vectors longer than 8 that are zero except for their last / first entries; now and then a window of 127, 128, 200 or 255) x 6 texts of 1..12 mixed-width characters + 2 texts assembled from the model\'s own n-grams, words, tag tokens and tag n-grams; texts of even length are predicted twice in a row on the same sentence; every boundary score compared with the brute-force linear model; plain and tagging scorers; since round 10/11: entries whose weights cancel their own suffix entry, tag weight lists in any offset order, and in every fifth text one code point from the edges of the character classes; since round 12 complete suffix chains of three or four entries built on purpose (every third model, character and type n-grams), type n-grams realised in the model-derived texts, now and then a tag model with 288 candidate scores',
         'not_covered': [
             'ALL scorer bodies are verified in unit C_scorers (CharScorerBoundary, TypeScorerBoundary, both *BoundaryTag add_scores, both add_tag_scores, the enum dispatch CharScorer/TypeScorer::add_scores; the cached scorer in T_cache) against ASSUMED contracts of daachorse::find_overlapping_no_suffix_iter (yields a fixed match sequence; each match is an occurrence of a known pattern ending inside the input; end() is the byte offset of a character end), of the SplitMix hash-map lookup, and an ASSUMED scorer_wf (what new() builds: one entry per pattern, Fixed entries inside the 7-slot padding); unit P_pred uses exactly the enum-level contracts proved there (shared contract text) with char_scores/type_scores left abstract',
             'Predictor::predict therefore requires pred_scores_ok (scorer tables well-formed; no i32 overflow for this text) and sentences shorter than 2^31 characters: stated ranges, not proved of Predictor::new',
@@ -111,7 +111,7 @@ PROPS = {
         'units': [('contracts/X_train.vc', None, 'X_train')],
         'functions': ['translate_feature', 'expand_word', 'lemma_slot_meets_predictor', 'lemma_word_slots', 'chars_count', 'gen_features'],
         'replay': 'c09',
-        'replay_scope': 'Trainer::new/add_example/train on 9 small corpora (plain, tagged, multi-candidate tags, no word boundary, only word boundaries, empty, one-character sentences, a larger one for dictionary features, one mixing partially and fully annotated sentences), all eight solvers in turn, also with a dictionary that repeats words; x every (char window, char n-gram, type window, type n-gram) in 1..3 plus 8 configurations with sizes of 0 (window 0 of one or both kinds, n-gram size 0) (1..5 thorough) x 3 dictionary settings: (through the verification hook VERIF_LEARNED) every boundary of 7-10 texts is scored by the trained model exactly as the learned quantised bias plus the learned quantised weight of each feature a reference extractor written from the statement finds for that boundary; every stored n-gram vector has the length of its own window, dictionary vectors have word length + 1 entries and the words of a length bucket share (left, inside, right), weights are 16-bit, the model re-reads and is usable; since round 11 a tenth corpus whose first annotated boundary is a word boundary and, on the two large corpora with character n-gram features, the direction check: the trained model agrees with its own training annotation on more than half of the boundaries',
+        'replay_scope': 'Trainer::new/add_example/train on 9 small corpora (plain, tagged, multi-candidate tags, no word boundary, only word boundaries, empty, one-character sentences, a larger one for dictionary features, one mixing partially and fully annotated sentences), all eight solvers in turn, also with a dictionary that repeats words; x every (char window, char n-gram, type window, type n-gram) in 1..3 plus 8 configurations with sizes of 0 (window 0 of one or both kinds, n-gram size 0) (1..5 thorough) x 3 dictionary settings: (through the verification hook VERIF_LEARNED) every boundary of 7-10 texts is scored by the trained model exactly as the learned quantised bias plus the learned quantised weight of each feature a reference extractor written from the statement finds for that boundary; every stored n-gram vector has the length of its own window, dictionary vectors have word length + 1 entries and the words of a length bucket share (left, inside, right), weights are 16-bit, the model re-reads and is usable; since round 11 a tenth corpus whose first annotated boundary is a word boundary and, on the two large corpora with character n-gram features, the direction check: the trained model agrees with its own training annotation on more than half of the boundaries; since round 12 window sizes 127, 128, 200, 255',
         'not_covered': [
             'the quantisation itself (f64 division, to_int_unchecked) and the pairing of a feature with ITS liblinear coefficient through the feature-id map: floating point + FFI, outside Verus; proved is WHERE a given (feature, quantised weight) pair is stored and that this is the slot the predictor reads',
             'Trainer::train as a whole is not under contract: the two blocks are extracted from it by anchors (block extraction); the statements around them (liblinear calls, loop over the hash map, Model::new call) are dropped',
@@ -123,7 +123,7 @@ PROPS = {
         'units': [('contracts/X_train.vc', None, 'X_train')],
         'functions': ['gen_features', 'add_example', 'text_substring', 'str_to_char_pos', 'len', 'char_ngram', 'type_ngram', 'dict_word_left', 'dict_word_inside', 'dict_word_right', 'lemma_char_grams_l_mem', 'lemma_fviews_push'],
         'replay': 'c10',
-        'replay_scope': '(a) through the verification hook Trainer::verif_examples (cfg vaporetto_verif): 7 (window, n-gram) configurations x 4 dictionary settings x 8 partially annotated sentences: the decoded examples (features with counts, label) equal a reference written from the statement (n-grams inside the window with relative positions, one dictionary feature per touching occurrence with bucketed length, one example per annotated boundary); (b) 5 configurations x 1..4 unannotated sentences added to a 6-sentence corpus: the number of registered features must not change and training must still succeed',
+        'replay_scope': '(a) through the verification hook Trainer::verif_examples (cfg vaporetto_verif): 7 (window, n-gram) configurations x 4 dictionary settings x 8 partially annotated sentences: the decoded examples (features with counts, label) equal a reference written from the statement (n-grams inside the window with relative positions, one dictionary feature per touching occurrence with bucketed length, one example per annotated boundary); (b) 5 configurations x 1..4 unannotated sentences added to a 6-sentence corpus: the number of registered features must not change and training must still succeed; since round 12 three more configurations with sizes of zero (feature-less rows are examples all the same)',
         'not_covered': [
             'the statements of add_example that number the features and build the sparse row (hashbrown entry API, f64 counts) are replaced by an assumed stub (R10 replace-range): proved is which examples are produced, with which label and which abstract features',
             'the dictionary automaton is assumed to report exactly the dictionary-word occurrences (daachorse semantics); proved is what gen_features does with each reported occurrence',
@@ -168,7 +168,7 @@ PROPS = {
         'level': 'exploration',
         'units': [],
         'replay': 'c20',
-        'replay_scope': 'BOUNDED: target_cli/release/predict built from /repo, run on a 19-line stdin (empty line, NUL, spaces, slashes, backslash; also fed with CR LF line ends and no final newline; half-width characters incl. those whose full-width form has the same byte length, full-width digits, combining marks, kanji runs of known words) with resources/model.bin under all 16 combinations of {--no-norm, --predict-tags, --scores, --tag-scores} x 4 --wsconst settings (none, D, G, K R): stdout compared byte for byte with the library pipeline of the statement (one tokenised line per input line whose surfaces are the original text, empty line for empty/rejected input, score block and tag-score block after their line in one layout); evaluate on a 9-line reference (mis-segmented last word followed by correct sentences and vice versa) under {char, word} x {--predict-tags} x {--no-norm} x 4 --wsconst settings: counts, precision, recall, F1 compared with an independent implementation of the character confusion counts and the Nagata word matching',
+        'replay_scope': 'BOUNDED: target_cli/release/predict built from /repo, run on a 19-line stdin (empty line, NUL, spaces, slashes, backslash; also fed with CR LF line ends and no final newline; half-width characters incl. those whose full-width form has the same byte length, full-width digits, combining marks, kanji runs of known words) with resources/model.bin under all 16 combinations of {--no-norm, --predict-tags, --scores, --tag-scores} x 4 --wsconst settings (none, D, G, K R): stdout compared byte for byte with the library pipeline of the statement (one tokenised line per input line whose surfaces are the original text, empty line for empty/rejected input, score block and tag-score block after their line in one layout); evaluate on a 9-line reference (mis-segmented last word followed by correct sentences and vice versa) under {char, word} x {--predict-tags} x {--no-norm} x 4 --wsconst settings: counts, precision, recall, F1 compared with an independent implementation of the character confusion counts and the Nagata word matching; since round 12 evaluate also runs on the shipped model stripped of its tag models and on a reference with one line of 190,000 characters',
         'not_covered': [
             'main() of predict/evaluate is not under contract (stdin/stdout, clap, zstd): the claim is the bounded process-level comparison, labelled bounded',
             'one model (resources/model.bin), fixed inputs; train, convert_kytea_model and manipulate_model are not exercised',
